@@ -1,7 +1,8 @@
 package codec
 
 // C13 - repeating groups survive the trip through the wire.
-// (a) free templates written through the API and parsed without a dictionary (rapid);
+// (a) free templates written through the API and parsed without a dictionary and with a
+//     dictionary generated for the template (rapid);
 // (b) every group of every message of every shipped dictionary, populated from the
 //     independent specification tree, written both through the API and in specification
 //     order by fixwire, parsed with the defining dictionary and without one.
@@ -11,6 +12,7 @@ import (
 	"fmt"
 	"math/rand"
 	"os"
+	"sort"
 	"strconv"
 	"strings"
 	"testing"
@@ -25,7 +27,7 @@ import (
 	"verif/vk"
 )
 
-const c13Rule = "(a) rapid: free group templates (depth<=3, 1-6 members, optional members absent, 0-4 entries) placed first/middle/last among body tags, written with SetGroup+build (a quarter of them set a first time with another population, optionally serialised, then replaced), parsed without dictionary; (b) enumeration of (dictionary, message, group path) over all shipped dictionaries, 3 population variants x {API-written, spec-order wire} x {with defining dictionary, without}; non-trivial = >=2 entries or a nested group, and >=1 body field after the group; distinct = distinct message bytes"
+const c13Rule = "(a) rapid: free group templates (depth<=3, 1-6 members, optional members absent, 0-4 entries) placed first/middle/last among body tags, written with SetGroup+build (a quarter of them set a first time with another population, optionally serialised, then replaced), parsed without dictionary and with a dictionary written for the template (transport dictionary: none / the same / one that lists further header fields); (b) enumeration of (dictionary, message, group path) over all shipped dictionaries, 3 population variants x {API-written, spec-order wire} x {with defining dictionary, without}; non-trivial = >=2 entries or a nested group, and >=1 body field after the group; distinct = distinct message bytes"
 
 func c13() *stats.Collector {
 	c := stats.Get("C13")
@@ -76,6 +78,18 @@ func genFreeGroup(t *rapid.T, tag int, tm *mTmpl) *mGroup {
 	return g
 }
 
+// leafMembers lists the non-group members of a template tree, except each group's delimiter.
+func leafMembers(tm *mTmpl, acc []*mMember) []*mMember {
+	for i := range tm.members {
+		if tm.members[i].nested != nil {
+			acc = leafMembers(tm.members[i].nested, acc)
+		} else if i > 0 {
+			acc = append(acc, &tm.members[i])
+		}
+	}
+	return acc
+}
+
 func groupShape(g *mGroup) (entries int, nested bool) {
 	entries = len(g.entries)
 	for _, e := range g.entries {
@@ -92,6 +106,20 @@ func c13FreeProperty(t *rapid.T) {
 	base := rapid.SampledFrom([]int{600, 6000, 20000}).Draw(t, "base")
 	next := base + 1
 	tm := genFreeTemplate(t, 1, &next)
+	// a counterparty's custom group may carry a tag from the standard header range as a member (an
+	// on-behalf-of or deliver-to id per entry): only the dictionary that defines the group can tell
+	// such a member from a header field, so these cases are checked in the with-dictionary half only
+	hdrMember := false
+	if rapid.IntRange(0, 5).Draw(t, "header-range-member") == 0 {
+		leaves := leafMembers(tm, nil)
+		hdrTags := rapid.Permutation([]int{115, 128, 50, 57, 116, 129, 142, 143, 144, 145}).Draw(t, "header-range-tags")
+		n := rapid.IntRange(1, 2).Draw(t, "header-range-count")
+		for i := 0; i < n && i < len(leaves); i++ {
+			leaves[rapid.IntRange(0, len(leaves)-1).Draw(t, "leaf")].tag = hdrTags[i]
+		}
+		hdrMember = true
+		c.Class("free:member-tag-from-header-range")
+	}
 	g := genFreeGroup(t, base, tm)
 	groupFill.order = rapid.IntRange(0, 2).Draw(t, "group-fill-order")
 	groupFill.reuse = rapid.Bool().Draw(t, "group-entry-reused")
@@ -153,6 +181,10 @@ func c13FreeProperty(t *rapid.T) {
 	if entries == 0 {
 		c.Class("free:zero-entries")
 	}
+	if hdrMember {
+		c13FreeWithDictionary(t, c, tm, g, others, after, raw)
+		return
+	}
 	p := quickfix.NewMessage()
 	if err := quickfix.ParseMessage(p, bytes.NewBuffer(raw)); err != nil {
 		vk.Violation(t, c, "C13/free/parse-error", "%v for %s", err, vk.Show(raw))
@@ -195,6 +227,7 @@ func c13FreeProperty(t *rapid.T) {
 			vk.Violation(t, c, "C13/free/field-after-group-lost", "tag %d: %q err %v want %q in %s", k, got, err, v, vk.Show(raw))
 		}
 	}
+	c13FreeWithDictionary(t, c, tm, g, others, after, raw)
 	for k, v := range others {
 		got, err := p.Body.GetString(quickfix.Tag(k))
 		if err != nil || got != v {
@@ -204,6 +237,100 @@ func c13FreeProperty(t *rapid.T) {
 	if (entries >= 2 || nested) && nAfter > 0 {
 		c.NonTrivial(stats.Hash(raw))
 		c.SampleClass("free/"+pos, vk.Show(raw))
+	}
+}
+
+// freeDictionary is the application dictionary a user would write for the generated template: one
+// message type whose body has the plain fields and the group, nested groups included.
+func freeDictionary(groupTag int, tm *mTmpl, plain []int, headerExtra []int) string {
+	fields := map[int]string{8: "STRING", 9: "LENGTH", 35: "STRING", 49: "STRING", 56: "STRING", 10: "STRING"}
+	var body strings.Builder
+	for _, tag := range plain {
+		fields[tag] = "STRING"
+		fmt.Fprintf(&body, "<field name='F%d' required='N'/>", tag)
+	}
+	var grp func(tag int, tm *mTmpl)
+	grp = func(tag int, tm *mTmpl) {
+		fields[tag] = "NUMINGROUP"
+		fmt.Fprintf(&body, "<group name='F%d' required='N'>", tag)
+		for _, m := range tm.members {
+			if m.nested != nil {
+				grp(m.tag, m.nested)
+			} else {
+				fields[m.tag] = "STRING"
+				fmt.Fprintf(&body, "<field name='F%d' required='N'/>", m.tag)
+			}
+		}
+		body.WriteString("</group>")
+	}
+	grp(groupTag, tm)
+	var hdr strings.Builder
+	for _, tag := range []int{8, 9, 35, 49, 56} {
+		fmt.Fprintf(&hdr, "<field name='F%d' required='Y'/>", tag)
+	}
+	for _, tag := range headerExtra {
+		fields[tag] = "STRING"
+		fmt.Fprintf(&hdr, "<field name='F%d' required='N'/>", tag)
+	}
+	var fl strings.Builder
+	tags := make([]int, 0, len(fields))
+	for tag := range fields {
+		tags = append(tags, tag)
+	}
+	sort.Ints(tags)
+	for _, tag := range tags {
+		fmt.Fprintf(&fl, "<field number='%d' name='F%d' type='%s'/>", tag, tag, fields[tag])
+	}
+	return "<fix type='FIX' major='4' minor='4' servicepack='0'><header>" + hdr.String() + "</header><trailer><field name='F10' required='Y'/></trailer>" +
+		"<messages><message name='Gen' msgtype='D' msgcat='app'>" + body.String() + "</message></messages><components/>" +
+		"<fields>" + fl.String() + "</fields></fix>"
+}
+
+// c13FreeWithDictionary is the other half of the statement for generated templates: the same bytes
+// parsed with the dictionary that defines the group (written for the template, as a counterparty's
+// custom dictionary would be), read back through the same template.
+func c13FreeWithDictionary(t *rapid.T, c *stats.Collector, tm *mTmpl, g *mGroup, others, after map[int]string, raw []byte) {
+	var plain []int
+	for k := range others {
+		plain = append(plain, k)
+	}
+	for k := range after {
+		plain = append(plain, k)
+	}
+	sort.Ints(plain)
+	transport := rapid.SampledFrom([]string{"none", "same", "with-unused-header-fields"}).Draw(t, "transport-dictionary")
+	var extra []int
+	if transport == "with-unused-header-fields" {
+		extra = []int{115, 128, 50, 57}
+	}
+	text := freeDictionary(g.tag, tm, plain, extra)
+	dd, err := datadictionary.ParseSrc(strings.NewReader(text))
+	if err != nil {
+		t.Fatalf("harness: generated dictionary does not load: %v\n%s", err, text)
+	}
+	var tdd *datadictionary.DataDictionary
+	if transport != "none" {
+		tdd = dd
+	}
+	c.Class("free:dictionary-parse/transport-" + transport)
+	p := quickfix.NewMessage()
+	if err := quickfix.ParseMessageWithDataDictionary(p, bytes.NewBuffer(raw), tdd, dd); err != nil {
+		vk.Violation(t, c, "C13/free-dict/parse-error", "%v for %s (transport dictionary %s)", err, vk.Show(raw), transport)
+	}
+	rg := quickfix.NewRepeatingGroup(quickfix.Tag(g.tag), tm.qf())
+	if err := p.Body.GetGroup(rg); err != nil {
+		vk.Violation(t, c, "C13/free-dict/getgroup-error", "%v for %s (transport dictionary %s)", err, vk.Show(raw), transport)
+	}
+	if err := compareGroup(rg, g); err != nil {
+		vk.Violation(t, c, "C13/free-dict/group-differs", "%v in %s (transport dictionary %s)", err, vk.Show(raw), transport)
+	}
+	for _, set := range []map[int]string{others, after} {
+		for k, v := range set {
+			got, err := p.Body.GetString(quickfix.Tag(k))
+			if err != nil || got != v {
+				vk.Violation(t, c, "C13/free-dict/field-outside-group-lost", "tag %d: %q err %v want %q in %s", k, got, err, v, vk.Show(raw))
+			}
+		}
 	}
 }
 
